@@ -14,7 +14,7 @@ class C18(Check):
     prop_module = "PoxModel.Properties.C18"
     lean_targets = ["drv_c18"]
     driver = "drv_c18"
-    theorems = ["Pox.C18.reachable_inv", "Pox.C18.bounded", "Pox.C18.unique_live", "Pox.C18.use_once", "Pox.C18.packet_in_form"]
+    theorems = ["Pox.C18.reachable_inv", "Pox.C18.bounded", "Pox.C18.unique_live", "Pox.C18.use_once", "Pox.C18.packet_in_form", "Pox.C18.use_to_controller"]
     anchors = [("pox/datapaths/switch.py", 418, 436), ("pox/datapaths/switch.py", 685, 721), ("pox/datapaths/switch.py", 311, 327)]
     design_ref = "DESIGN.md §5 C18"
     technique = "Lean 4 proof (invariant over all operation histories tying the ids handed to the controller to the slot list) + differential correspondence through the byte-level switch connection"
@@ -37,7 +37,7 @@ class C18(Check):
 
     ALPHA = [{"op": "arrive", "i": 0, "len": 20, "port": 1, "dl": None}, {"op": "arrive", "i": 1, "len": 14, "port": 2, "dl": 3},
              {"op": "use", "id": 1, "via": "po"}, {"op": "use", "id": 2, "via": "fm"}, {"op": "use", "id": 0, "via": "po"},
-             {"op": "use", "id": 3, "via": "po"}, {"op": "setmiss", "n": 16}]
+             {"op": "use", "id": 3, "via": "po"}, {"op": "setmiss", "n": 16}, {"op": "usectl", "id": 1, "dl": 7, "via": "po"}]
 
     def corpus(self):
         cases = []
@@ -53,8 +53,11 @@ class C18(Check):
         if r < 0.45:
             return {"op": "arrive", "i": k, "len": rng.choice([14, 15, 20, 64, 128, 129, 200, rng.randint(14, 300)]), "port": rng.randint(1, 4),
                     "dl": rng.choice([None, None, 0, 1, 14, 128, 65535, rng.randint(0, 300)])}
-        if r < 0.9:
+        if r < 0.75:
             return {"op": "use", "id": rng.choice([0, 1, 1, 2, 2, 3, mx, mx + 1, rng.randint(0, mx + 2), 0xfffffffe]), "via": rng.choice(["po", "po", "fm"])}
+        if r < 0.9:
+            return {"op": "usectl", "id": rng.choice([0, 1, 1, 2, 2, 3, mx, mx + 1, rng.randint(0, mx + 2)]), "dl": rng.choice([0, 5, 128, 65535, rng.randint(0, 300)]),
+                    "via": rng.choice(["po", "po", "fm"])}
         return {"op": "setmiss", "n": rng.choice([0, 1, 14, 128, 65535, rng.randint(0, 300)])}
 
     def generate(self, rng, tier):
@@ -87,6 +90,21 @@ class C18(Check):
                 o = pins(rep)
                 if st != "ok" or em or len(o) != 1: o = [{"k": "unexpected", "status": st, "emitted": len(em), "replies": o}]
                 outs.append(o[0])
+            elif op["op"] == "usectl":
+                # release a buffer through an action list that sends the packet to the controller again
+                act = [of.ofp_action_output(port=of.OFPP_CONTROLLER, max_len=op["dl"])]
+                if op["via"] == "po":
+                    msg = of.ofp_packet_out(buffer_id=op["id"], in_port=of.OFPP_NONE, actions=act)
+                else:
+                    msg = of.ofp_flow_mod(match=of.ofp_match(in_port=77), buffer_id=op["id"], actions=act, command=of.OFPFC_ADD)
+                st, rep, em = node.send(msg)
+                errs = [r for r in rep if isinstance(r, of.ofp_error) and r.type == of.OFPET_BAD_REQUEST and r.code in (7, 8)]
+                rest = [r for r in rep if r not in errs]
+                o = pins(rest)
+                if st != "ok" or em or len(errs) > 1 or (errs and rest) or len(o) > 1 or (o and o[0]["k"] != "pin"):
+                    outs.append({"k": "unexpected", "status": st, "emitted": len(em), "replies": pins(rep)})
+                elif o: outs.append(o[0])
+                else: outs.append({"k": "none"})
             elif op["op"] == "use":
                 act = [of.ofp_action_output(port=of.OFPP_IN_PORT)]
                 if op["via"] == "po":
@@ -112,6 +130,7 @@ class C18(Check):
         for op in case["ops"]:
             if op["op"] == "arrive": ops.append({"op": "arrive", "fr": frame(op["i"], op["len"]).hex(), "port": op["port"], "dl": op["dl"]})
             elif op["op"] == "use": ops.append({"op": "use", "id": op["id"]})
+            elif op["op"] == "usectl": ops.append({"op": "usectl", "id": op["id"], "dl": op["dl"]})
             else: ops.append({"op": "setmiss", "n": op["n"]})
         return {"max": case["max"], "miss": case["miss"], "ops": ops}
 
@@ -135,6 +154,22 @@ class C18(Check):
                     if len(live) >= case["max"]: return "more than max_buffers packets stored"
                     if o["data"] != fr[:dl].hex(): return "buffered packet-in data is not the first min(len, %d) bytes" % dl
                     live[bid] = (fr, op["port"])
+            elif op["op"] == "usectl":
+                if op["id"] in live:
+                    fr, port = live[op["id"]]
+                    if o["k"] != "pin": return "releasing live buffer %d to the controller produced no packet-in" % op["id"]
+                    if o["port"] != port or o["total"] != len(fr): return "re-announced packet-in has wrong in_port/total_len"
+                    bid = o["bid"]
+                    if bid is None:
+                        if len(live) < case["max"]: return "no buffer id although %d of %d buffers are in use" % (len(live), case["max"])
+                        if o["data"] != fr.hex(): return "unbuffered packet-in does not carry the whole frame"
+                    else:
+                        if bid in live: return "buffer id %d handed out twice" % bid
+                        if o["data"] != fr[:op["dl"]].hex(): return "buffered packet-in data is not the first min(len, %d) bytes" % op["dl"]
+                    del live[op["id"]]
+                    if bid is not None: live[bid] = (fr, port)
+                else:
+                    if o["k"] != "none": return "using unknown/used buffer id emitted a packet"
             elif op["op"] == "use":
                 if op["id"] in live:
                     fr, port = live.pop(op["id"])
